@@ -1,7 +1,7 @@
 (* C14: the hypotheses of the theorems are met by concrete, non-trivial data;
    witnesses of the behaviour of the pinned (unrepaired) tree. *)
 From Coq Require Import List ZArith NArith Lia.
-From VV Require Import C14.Model C14.Proofs C14.Proofs2 C14.Proofs3.
+From VV Require Import C14.Model C14.Proofs C14.Proofs2 C14.Proofs3 C14.Proofs4.
 Import ListNotations.
 Open Scope N_scope.
 
@@ -78,3 +78,33 @@ Proof. vm_compute. reflexivity. Qed.
 Example read_env_pinned_refuted' :
   exists fs names, (forall n, file_ok (fs n)) /\ read_env caught_pinned fs names = Raises XEOFError.
 Proof. exact read_env_pinned_refuted. Qed.
+
+(* ---- write_crash_read is not vacuous: the model's encoder is a pickler for this
+   two-task environment; t1's file is cut, t0's entry comes back ---- *)
+Definition t1 : list N := [116; 49].
+Definition root0 : list N := [47;111;117;116].                       (* "/out" *)
+Definition fname0 : list N := [118;46;101;110;118].                  (* "v.env" *)
+Definition entry1 : value :=
+  VDict [(VStr s_status, v_status 3); (VStr s_output_dir, VStr (join_path root0 t1))].
+Definition items01 : list (value * value) := [(VStr t0, entry0); (VStr t1, entry1)].
+
+Example enc_is_a_pickler_here :
+  forall k e, In (k, e) items01 -> dec (enc (mk_env [(k, e)])) = Got (mk_env [(k, e)], []).
+Proof. intros k e [H|[H|[]]]; inversion H; subst; vm_compute; reflexivity. Qed.
+
+Example items01_wf : forall k e, In (k, e) items01 -> (exists s, k = VStr s) /\ wf_entry e.
+Proof.
+  intros k e [H|[H|[]]]; inversion H; subst; (split; [eexists; reflexivity|]);
+    eexists _, _; split; reflexivity.
+Qed.
+
+Example items01_nodup : NoDup (map fst items01).
+Proof. repeat constructor; cbn; intuition discriminate. Qed.
+
+Example write_crash_read_instance :
+  read_env caught_now
+    (fun n => fold_left apply_hop
+                (wops enc fname0 items01 ++ [HCut (task_file root0 fname0 t1) 30]) fs0
+                (task_file root0 fname0 n)) [t0; t1]
+  = Ret [(VStr t0, entry0)].
+Proof. vm_compute. reflexivity. Qed.
